@@ -24,24 +24,28 @@ NOT_REACHED = ['memoryPool handle layer (one-line forwarders, covered for assert
                'longer histories, more than 4 live reservations', 'byte contents beyond one tracked byte per run (any byte: it is symbolic)']
 
 
-def build(ctx, prop=None):
+def build(ctx, prop=None, only_ops=None, only_aligns=None):
     prop = prop or PROP
-    other = 'C04' if prop == 'C03' else 'C03'
+    others = '|'.join(x for x in ('C03', 'C04', 'C05') if x != prop)
     unit, fns = poolunit.build_unit(ctx)
     src = unit + poolunit.HARNESS
     aligns = [(128, 8), (8, 128)] if ctx.tier == 'quick' else [(128, 8), (8, 128), (8, 24), (1, 128), (24, 8), (4096, 128)]
     bits = 10 if ctx.tier == 'quick' else 12
     opn = ['reserve', 'resize', 'shrinkToFit', 'setAlignment', 'release', 'slice']
     groups = []
+    if only_aligns:
+        aligns = [x for x in aligns if x in only_aligns]
     for a, a2 in aligns:
         for op, name in enumerate(opn):
+            if only_ops and name not in only_ops:
+                continue
             groups.append(Group(
                 name='pool/%s/align=%d%s' % (name, a, ('->%d' % a2) if name == 'setAlignment' else ''),
                 sources={'pool.cpp': src}, entry='h_pool_op', lang='cpp', unwind=8,
                 defines=['ALIGN=%d' % a, 'ALIGN2=%d' % a2, 'SZ_BITS=%d' % bits, 'VERIF_OP=%d' % op],
                 min_obligations=10, functions=fns, canary='CANARY', canary_label='canary', strength='bounded',
                 bound='histories of <= 3 reservations (+ slice, + releases) then one %s; sizes < 2^%d; alignment %d' % (name, bits, a),
-                object_bits=10, timeout=2400, ignore=(r': (%s|C05): ' % other) if prop != 'C04' else (r': %s: ' % other),
+                object_bits=10, timeout=2400, ignore=r': (%s): ' % others,
                 checks=['--bounds-check', '--pointer-check', '--div-by-zero-check', '--undefined-shift-check', '--no-signed-overflow-check'],
                 param='alignment %d, operation %s' % (a, name), replay=replay_C03.replay))
     return groups
